@@ -994,6 +994,13 @@ pub(crate) async fn prepare_request(
 
     let (operation_name, mut operation) = operation.map_err(|err| vec![err])?;
 
+    if request.disallow_mutations && operation.node.ty == OperationType::Mutation {
+        return Err(vec![ServerError::new(
+            "Mutations are not allowed for this request (HTTP GET requests must not execute mutations).",
+            Some(operation.pos),
+        )]);
+    }
+
     // remove skipped fields
     let variable_definitions = operation.node.variable_definitions.clone();
     for fragment in document.fragments.values_mut() {
